@@ -665,6 +665,14 @@ func (vt *Model) decstbm(pm [][]int) {
 		top = row(pm[0][0] - 1)
 		bot = row(pm[1][0] - 1)
 	}
+	// A parameter of 0 means the default, and the bottom margin can not be
+	// below the last line
+	if top < 0 {
+		top = 0
+	}
+	if bot < 0 || bot > row(vt.height())-1 {
+		bot = row(vt.height()) - 1
+	}
 	if top >= bot {
 		return
 	}
